@@ -221,14 +221,14 @@ def c19_jobs(Job, tier):
         js.append(last_sector_job(Job, cfg))
         js.append(sector_count_job(Job, cfg))
         js.append(visit_job(Job, cfg))
-        js += colstream_jobs(Job, cfg) + hfegeom_jobs(Job, cfg)
+        js += colstream_jobs(Job, cfg) + hfegeom_jobs(Job, cfg) + [j for j in space_jobs(Job, cfg) if "add_initial_gap" in j.name]
         if cfg is CFG_ASSERT:
             # every other extracted function that contains an assert(): the same contracts, assertions compiled in
             js += [j for j in fileio_jobs(Job, cfg) if "presented_blockwise" in j.name or "blockwise" in j.name]
             js += free_jobs(Job, cfg) + opus_jobs(Job, cfg) + write_span_jobs(Job, cfg)
             js += [j for j in hxc_jobs(Job, cfg) if "header" in j.name]
             js += [j for j in crc_jobs(Job, cfg) if j.tier == "quick"]
-            js += [j for j in space_jobs(Job, cfg) if "add_initial_gap" in j.name] + [j for j in destdir_jobs(Job, cfg) if "make_name" in j.name]
+            js += [j for j in destdir_jobs(Job, cfg) if "make_name" in j.name]
             js += [j for j in mfm_decoder_jobs(Job, cfg) if "mfm_read_byte" in j.name] + [j for j in bitstream_jobs(Job, cfg) if "mfm_read_byte" in j.name]
     return js
 
@@ -260,7 +260,7 @@ def c16_extra(Job, tier):
     cfg = CFG_NDEBUG
     return [Job("D_connect_drives_%s" % cfg[0], "harness/dfs_storage.c", "h_connect", enforce=["connect_drives"],
                 replace=["check_sequence_fits", "SurfaceSelector_next"], loops=True, defines=list(cfg[1]),
-                extract=ext(STORAGE_GROUP + ["connect_drives"]), tier="quick", cover=True, solver="portfolio", timeout=900)] + viewfile_jobs(Job)
+                extract=ext(STORAGE_GROUP + ["connect_drives"]), tier="quick", cover=True, solver="portfolio", timeout=900)] + viewfile_jobs(Job) + mmb_jobs(Job)
 
 
 # ---- C17 extra: Opus volume extents ----------------------------------------------------------------------------
@@ -484,7 +484,7 @@ def fsp_jobs(Job, cfg=CFG_NDEBUG, tier="quick"):
 
 
 def c15_extra(Job, tier):
-    return fsp_jobs(Job) + names_jobs(Job)
+    return fsp_jobs(Job) + names_jobs(Job) + prefix_jobs(Job)
 
 
 def catsort_jobs(Job, cfg=CFG_NDEBUG, tier="quick"):
@@ -527,7 +527,7 @@ def geometry_jobs(Job, cfg=CFG_NDEBUG, tier="quick"):
 
 
 def c13_extra(Job, tier):
-    return geometry_jobs(Job)
+    return geometry_jobs(Job) + [j for j in opus_jobs(Job) if "extents" in j.name]
 
 
 def hints_jobs(Job, cfg=CFG_NDEBUG, tier="quick"):
@@ -588,3 +588,13 @@ def inf_jobs(Job, cfg=CFG_NDEBUG, tier="quick"):
 def hfegeom_jobs(Job, cfg=CFG_NDEBUG, tier="quick"):
     return [Job("D_hfe_geometry_tail_%s" % cfg[0], "harness/dfs_hfegeom.c", "h_hfe_geometry", enforce=["hfe_geometry_tail"],
                 defines=list(cfg[1]), extract=ext(["hfe_encodings", "hfe_geometry_tail"]), tier=tier)]
+
+
+def prefix_jobs(Job, cfg=CFG_NDEBUG, tier="quick"):
+    g = ["VolumeSelector_to_string", "afsp_drive_prefix", "afsp_directory_prefix"]
+    uw = ["--unwindset", "cstr_append.0:16", "--unwinding-assertions"]
+    def J(name, entry, enforce, **kw):
+        return Job("D_%s_%s" % (name, cfg[0]), "harness/dfs_prefix.c", entry, enforce=enforce, defines=list(cfg[1]), extract=ext(g), tier=tier, cbmc=uw, **kw)
+    return [J("volume_selector_to_string", "h_vol_to_string", ["VolumeSelector_to_string"]),
+            J("afsp_drive_prefix", "h_drive_prefix", ["afsp_drive_prefix"]),
+            J("afsp_directory_prefix", "h_directory_prefix", ["afsp_directory_prefix"])]
